@@ -157,11 +157,11 @@ def reordered(v):
     return v
 
 
-def run_impl(root: Path, fmt: str, eps: int, sessions, attrs, reopen: bool, md_shift: int = 0, select: bool = False):
+def run_impl(root: Path, fmt: str, eps: int, sessions, attrs, reopen: bool, md_shift: int = 0, select: bool = False, hashes=None):
     """Execute on the real API. Returns per-write records and the final per-split listing."""
     from sedpack.io import Dataset, Attribute
     A = [Attribute(name=n, dtype=d, shape=s) for n, d, s in attrs]
-    ds = sp.mk(root, fmt=fmt, eps=eps, attrs=A)
+    ds = sp.mk(root, fmt=fmt, eps=eps, attrs=A, hashes=hashes)      # (hashes=None: varied with the location, see sp.mk)
     records, ex = [], 0
     session_errors = []
     for si, ops in enumerate(sessions):
@@ -356,6 +356,22 @@ def explore(ctx, focus: str):
             attrs = [("a", "int32", (2,)), ("b", "float32", (3,)), ("c", "uint8", ())][: rng.choice([2, 3])]
         cases.append({"fmt": fmt, "eps": eps, "sessions": sessions, "attrs": attrs, "reopen": rng.random() < 0.5,
                       "md_mode": md_mode, "mutate": mutate, "md_shift": rng.choice([0, 0, 2, 5])})
+    if focus in ("C10", "C18"):
+        # directed: a rejected write exactly where a *fresh* shard has just been opened for it — the first write of a split, the write
+        # right after a shard filled up, the write right after a metadata change — and nothing accepted into that split afterwards;
+        # with and without checksum algorithms (with none configured, closing a shard does not read the shard file back)
+        k = 0
+        for hs in ([], ["sha256"], ["xxh64", "md5"]):
+            for fmt in FORMATS:
+                bad = ["shape", "missing", "rank"][k % 3]; k += 1
+                eps = 2
+                directed = [
+                    [[["w", 0, None, "ok", None], ["w", 0, None, "ok", None], ["w", 0, None, bad, None], ["w", 1, None, bad, None]]],
+                    [[["w", 0, None, bad, None]], [["w", 0, None, "ok", None], ["w", 1, None, "ok", None], ["w", 1, 0, "ok", None], ["w", 1, 1, bad, None]]],
+                ]
+                for sessions in directed[: (2 if hs == [] or ctx.thorough else 1)]:
+                    cases.append({"fmt": fmt, "eps": eps, "sessions": sessions, "attrs": [("a", "int32", (2,))], "reopen": False, "md_mode": "vary", "mutate": False,
+                                  "md_shift": 0, "hashes": hs})
     # corpus first
     corpus = sorted((Path(__file__).resolve().parents[2] / "corpus" / focus).glob("*.json"))
     cases = [json.loads(p.read_text()) for p in corpus] + cases
@@ -366,7 +382,7 @@ def explore(ctx, focus: str):
         root = ctx.scratch / f"{focus}_{i}"
         c["attrs"] = [tuple(a[:2]) + (tuple(a[2]),) for a in c["attrs"]]
         c["impl"] = run_impl(root, c["fmt"], c["eps"], c["sessions"], c["attrs"], c["reopen"], c.get("md_shift", 0),
-                             select=(focus == "C11" and i % 3 == 0))
+                             select=(focus == "C11" and i % 3 == 0), hashes=c.get("hashes"))
         shutil.rmtree(root, ignore_errors=True)
     reqs, idx = [], []
     for c in cases:
@@ -385,7 +401,7 @@ def explore(ctx, focus: str):
 
 def slim(c):
     """A case without bulky results, for replay files / samples."""
-    return {k: c.get(k) for k in ("fmt", "eps", "sessions", "attrs", "reopen", "md_mode", "mutate", "md_shift")}
+    return {k: c.get(k) for k in ("fmt", "eps", "sessions", "attrs", "reopen", "md_mode", "mutate", "md_shift", "hashes") if k != "hashes" or c.get("hashes") is not None}
 
 
 def shape_of(c):
